@@ -41,8 +41,8 @@ def run(ctx):
         for cfg in ('MC_4ops_n2.cfg', 'MC_4ops_n3.cfg', 'MC_4ops_n4.cfg', 'MC_4opsB_n3.cfg', 'MC_4opsB_n4.cfg',
                     'MC_4opsB_n5.cfg'):
             ctx.check_model(SPEC, 'MCSpsc.tla', cfg, WHAT, label=cfg, workers=4, java_opts=JOPTS)
-        ctx.check_model(SPEC, 'MCSpsc.tla', 'MC_all3.cfg', WHAT, vacuity_exempt=('Init',),
-                        label='all producer x consumer histories of length 3, n=2,3,4', workers=4,
+        ctx.check_model(SPEC, 'MCSpsc.tla', 'MC_all3.cfg', WHAT, vacuity_exempt=('Init', 'ObsLd1', 'ObsLd2'),
+                        label='all producer x consumer histories of length 3 (reduced alphabets), n=2,3,4', workers=4,
                         timeout=1100, heap='12g', java_opts=JOPTS)
 
     # E2 + E4, then one E3 run over everything recorded -----------------------------------------
